@@ -156,6 +156,33 @@ def run(prog, rep):
                    "every segment access lies inside the lock; all %d return state(s) leave it unlocked" % len(r["rets"]) if r["locks"] else "the operation never locks the segment", fn.loc[0])
     rep.floor("C08.1", 5)
 
+    # ---- C08.7 ---------------------------------------------------------------
+    rep.rule("C08.7", "handle lifecycle leaves the queue alone: opening, freeing or taking ownership of a handle never reaches the segment's memory (only read, write, clear "
+                      "and the two space queries obtain its address) - a buffer opened while others use it carries their pending bytes and positions")
+    OPS5 = set(ops)
+    n7 = 0
+    for f0 in sorted(u.functions.values(), key=lambda f: f.loc[0]):
+        if f0.static or f0.name in OPS5:
+            continue
+        n7 += 1
+        seen7, work7, hit7 = set(), [f0.name], None
+        while work7 and hit7 is None:
+            x = work7.pop()
+            if x in seen7 or x not in u.functions:
+                continue
+            seen7.add(x)
+            for (b, i, c) in u.functions[x].calls():
+                cn = c.get("callee")
+                if cn == "p_shm_get_address" or cn in MEMCPY or cn in ("memset", "__builtin_memset", "__builtin___memset_chk"):
+                    hit7 = (x, c)
+                    break
+                if cn in u.functions:
+                    work7.append(cn)
+        rep.ob("C08.7", f0, "lifecycle", hit7 is None, "%s never obtains the segment address" % f0.name if hit7 is None else
+               "line %d: %s reaches the segment memory (%s in %s): every open / free of a handle then rewrites the queue the other handles of the name are using - "
+               "their pending bytes and positions are lost" % (line(hit7[1]), f0.name, hit7[1].get("callee"), hit7[0]), hit7[1] if hit7 else f0.loc[0])
+    rep.floor("C08.7", 3)
+
     # ---- helpers: C08.5 ---------------------------------------------------------
     helper_terms = {}
     for hn in HELPERS:
@@ -727,6 +754,8 @@ def is_min(t, a, b):
 RENAME_LOCALS = ['src/pshmbuffer.c']
 
 SELFTEST = [
+    dict(id="buffer-new-clears-the-segment", file="src/pshmbuffer.c", expect="C08.7",
+         old="\tret->size = p_shm_get_size (shm) - P_SHM_BUFFER_DATA_OFFSET;\n\n\treturn ret;", new="\tret->size = p_shm_get_size (shm) - P_SHM_BUFFER_DATA_OFFSET;\n\n\tp_shm_buffer_clear (ret);\n\n\treturn ret;"),
     dict(id="clear-fills-ring-size-only", file="src/pshmbuffer.c", expect="C08.2",
          old="\tmemset (addr, 0, size);", new="\tmemset (addr, 0, buf->size);"),
     dict(id="clear-fills-header-and-ring-neutral", file="src/pshmbuffer.c", expect=None,
